@@ -1460,7 +1460,7 @@ def _sweep_failure(long, tlabel, slabel, history, err, diff):
                    "file identical before and after the refused call", "sweep:" + tlabel)
 
 
-def sweep(ctx, plan, deadline=None):
+def sweep(ctx, plan, deadline=None, stop_after=None):
     """plan: [(long, target label, [spelling labels])] (c12_sweep.plan); returns (failures, stats)"""
     failures = []
     stats = {"calls": 0, "refused": 0, "accepted": 0, "snapshots": 0, "replays": 0, "builds": 0, "targets": 0,
@@ -1470,6 +1470,9 @@ def sweep(ctx, plan, deadline=None):
         for long, tlabel, spellings in plan:
             if deadline is not None and time.time() > deadline:
                 stats["cut_short"] = True
+                break
+            if stop_after is not None and len(failures) >= stop_after:
+                stats["stopped_after_failures"] = len(failures)
                 break
             scene = scenes[bool(long)]
             stats["targets"] += 1
@@ -1644,8 +1647,13 @@ def _oracle(ctx, broken, hints):
             break
     # (d) the argument-spelling sweep: value-taking mutators x spellings of the value x {short, long} scene
     sweep_rng = random.Random("C12-sweep/%s/%d" % (ctx.tier, ctx.seed))
-    sfail, sstats = sweep(ctx, SW.plan(ctx.tier, ctx.seed, sweep_rng, broken),
-                          deadline=time.time() + ctx.budget(150, 900) * (2 if broken else 1))
+    splan = SW.plan(ctx.tier, ctx.seed, sweep_rng, broken)
+    if broken:
+        # a broken obligation: the multi-argument calls first (late validations live there), and the search ends with
+        # the third failing input - the large budget is for finding one
+        splan = [p for p in splan if p[1] in SW.VALID] + [p for p in splan if p[1] not in SW.VALID]
+    sfail, sstats = sweep(ctx, splan, deadline=time.time() + ctx.budget(150, 900) * (2 if broken else 1),
+                          stop_after=3 if broken else None)
     failures += sfail
     evals += sstats["calls"]
     refused += sstats["refused"]
